@@ -125,9 +125,9 @@ def r35_2(ctx, m):
             for st in stmts:
                 if isinstance(st, ast.If):
                     t = _norm(st.test)
-                    if t in (f"{mn}==self.TIMES", f"{mn}==1"):
+                    if t in (f"{mn}==self.TIMES", f"{mn}==1", f"self.TIMES=={mn}"):
                         walk(st.body if mode_times else st.orelse)
-                    elif t in (f"{mn}==self.ADJOINT_TIMES", f"{mn}==2"):
+                    elif t in (f"{mn}==self.ADJOINT_TIMES", f"{mn}==2", f"self.ADJOINT_TIMES=={mn}"):
                         walk(st.orelse if mode_times else st.body)
                     elif t == "self._central":
                         walk(st.body if central else st.orelse)
@@ -307,7 +307,7 @@ def r35_3(ctx, m):
     guard = [st for st in walk_no_nested(ini.node) if isinstance(st, ast.If) and "zip(" in src(st.test) and any(isinstance(x, ast.Raise) for x in st.body)]
     ns = ini.params()[2]
     ctx.check("R35.3", f"{ini.key}::refuses a new shape larger than the old one",
-              len(guard) == 1 and _norm(guard[0].test) == f"any([a>bfora,binzip({ns},dom.shape)])", src(guard[0].test) if guard else None, ini)
+              len(guard) == 1 and _norm(guard[0].test) in (f"any([a>bfora,binzip({ns},dom.shape)])", f"any([b<afora,binzip({ns},dom.shape)])"), src(guard[0].test) if guard else None, ini)
 
 
 # ---------------------------------------------------------------------------------------------------------------- interpolation
